@@ -203,7 +203,18 @@ func (g *TxGen) GenRegistry(t *rapid.T) *RegTx {
 		signers := []signature.Signer{nk.ID, p2p, cons, vrf, tls}
 		txSigner, txAddr, txName := nk.ID, staking.NewAddress(nk.ID.Public()), nk.Name
 		if kind == "badnode" {
-			switch rapid.IntRange(0, 4).Draw(t, "bad") {
+			switch rapid.IntRange(0, 5).Draw(t, "bad") {
+			case 5:
+				// one of the node's keys did not sign, another of its own keys signed twice: still five valid signatures
+				// by keys the descriptor lists (the key at index 0 is the node's identity key and must sign anyway)
+				i := rapid.IntRange(1, 4).Draw(t, "dropSig2")
+				j := rapid.IntRange(0, 4).Draw(t, "doubleSig")
+				if j == i {
+					j = (i + 1) % 5
+				}
+				signers = append([]signature.Signer{}, signers...)
+				signers[i] = signers[j]
+				unauthorized = fmt.Sprintf("descriptor lacks signature %d of 5, key %d signed twice instead", i, j)
 			case 0:
 				i := rapid.IntRange(0, 4).Draw(t, "dropSig")
 				signers = append(append([]signature.Signer{}, signers[:i]...), signers[i+1:]...)
